@@ -112,7 +112,7 @@ def run(ctx, chk):
     W = raw.where("parse_operands", "Parser")
     nq = 0
     shape_fail = None
-    for quants, words in quantx.cases():
+    for quants, words in quantx.cases(quantx.extra(ctx)):
         kinds = ["K%d" % i for i in range(len(quants))]
         try:
             r, h = quantx.evaluate(ctx, kinds, quants, words)
